@@ -356,6 +356,6 @@ pub fn run_all(ctx: &mut Ctx, replay: Option<&Path>) {
     }
     ctx.regressions(&p);
     ctx.regressions(&m);
-    ctx.random(&p, pso_strategy(20), ctx.tier.pick(8000, 80_000));
+    ctx.random(&p, pso_strategy(20), ctx.tier.pick(25_000, 120_000));
     ctx.exhaustive(&m, "particles, velocities, personal bests in 0..4 each x global best present/absent", (0u8..4).flat_map(|a| (0u8..4).flat_map(move |b| (0u8..4).flat_map(move |c| [false, true].into_iter().map(move |g| MismatchCase { particles: a, velocities: b, bests: c, has_global: g })))));
 }
